@@ -178,6 +178,26 @@ fn add_specials(r: &mut Rng, m: &mut Model, flags: &mut Vec<String>, allow_dup_t
             flags.push("dup_event".into());
         }
     }
+    if m.files.len() >= 2 && r.chance(1, 6) {
+        // the same emitting helper, verbatim, as the first item of two files: the two
+        // emit sites agree in event name, payload *and line number*
+        let mut nm = Namer::from_model(m);
+        let f = Command {
+            name: nm.fresh(r, "cmd"),
+            params: vec![],
+            chans: vec![],
+            ret: None,
+            is_async: false,
+            short_attr: false,
+            emits: vec![Emit { event: nm.fresh(r, "event"), payload: Payload::Str, emit_to: false }],
+            is_command: false,
+        };
+        let a = r.below(m.files.len() as u64) as usize;
+        let b = (a + 1 + r.below(m.files.len() as u64 - 1) as usize) % m.files.len();
+        m.files[a].items.insert(0, Item::Cmd(f.clone()));
+        m.files[b].items.insert(0, Item::Cmd(f));
+        flags.push("twin_emitter".into());
+    }
     if allow_dup_type && m.files.len() >= 2 && r.chance(1, 8) {
         // same type name in two files, different fields
         let name: Option<String> = m.structs().iter().find(|s| s.serde).map(|s| s.name.clone());
